@@ -279,6 +279,39 @@ Proof. unfold add_leaf. destruct (upload_issuers sha l st). reflexivity. Qed.
 
 End Proofs.
 
+(* ---- the deduplication key separates precert entries by issuer key hash ---- *)
+Lemma app_inj_same_length (a b c d : bytes) :
+  length a = length b -> a ++ c = b ++ d -> a = b /\ c = d.
+Proof.
+  revert b. induction a as [|x a IH]; destruct b as [|y b]; cbn; try discriminate; auto.
+  intros Hl H. inversion H; subst. destruct (IH b) as [-> ->]; auto.
+Qed.
+
+Theorem dedup_preimage_ikh cert1 cert2 ikh1 ikh2 :
+  length ikh1 = length ikh2 ->
+  dedup_preimage cert1 true ikh1 = dedup_preimage cert2 true ikh2 -> ikh1 = ikh2.
+Proof.
+  unfold dedup_preimage. intros Hl H.
+  rewrite <- !app_assoc in H.
+  apply app_inj_same_length in H; [|reflexivity]. destruct H as [_ H].
+  apply app_inj_same_length in H; [|exact Hl]. tauto.
+Qed.
+
+(* so with a collision-free SHA-256 two precert entries with different issuer key hashes never
+   share a key, however equal their TBSCertificates are: they are two entries *)
+Theorem dedup_key_separates_issuers (sha : bytes -> bytes) cert1 cert2 ikh1 ikh2 :
+  (forall a b, sha a = sha b -> a = b) ->
+  length ikh1 = length ikh2 -> ikh1 <> ikh2 ->
+  dedup_key sha cert1 true ikh1 <> dedup_key sha cert2 true ikh2.
+Proof.
+  intros Hinj Hl Hne H. apply Hne. eapply dedup_preimage_ikh; eauto.
+Qed.
+
+(* and entry types are separated too *)
+Theorem dedup_preimage_type cert1 cert2 ikh1 ikh2 :
+  dedup_preimage cert1 true ikh1 <> dedup_preimage cert2 false ikh2.
+Proof. unfold dedup_preimage. cbn. intros H. inversion H. Qed.
+
 (* ---- non-vacuity: the schedule "the first Upload of every issuer fails", resubmitted ---- *)
 Open Scope byte_scope.
 Definition toy_sha (b : bytes) : bytes := x73 :: b.
